@@ -49,7 +49,7 @@ Init ==
   /\ veh = [v \in Vehicles |->
        SetEn([act |-> "Idle", pos |-> VDef[v].pos, lnk |-> LinkOf(VDef[v].pos), tgt |-> None, plug |-> None,
               rn |-> 0, rs |-> None, re |-> None, enq |-> -1, ob |-> None, obdest |-> {},
-              en |-> 0, full |-> FALSE, empty |-> FALSE, hop |-> 0,
+              en |-> 0, full |-> FALSE, empty |-> FALSE, hop |-> 0, arr |-> 0,
               fleets |-> VDef[v].fleets, kind |-> VDef[v].kind, pool |-> VDef[v].pool], VDef[v].en)]
   /\ st = [s \in DOMAIN StDef |->
        [pos |-> StDef[s].pos, lnk |-> LinkOf(StDef[s].pos), fleets |-> StDef[s].fleets,
@@ -187,8 +187,11 @@ Update ==
        \E c \in UpdateChoices(v) :
          LET prm == [mv |-> c.mv, npos |-> Road, nlnk |-> "x", nrn |-> 1]
              R == UpdateOp(S0, v, prm) IN
-         IF R.ok THEN Commit(IF c.mv = "oos" THEN R.S ELSE ApplyNumeric(R.S, v, c))
-         ELSE UNCHANGED <<veh, st, bs, req>>
+         \* arr counts consecutive updates that begin with an exhausted route and end in the same travelling activity
+         LET stays(T) == veh[v].act \in Moving /\ veh[v].rn = 0 /\ T.veh[v].act = veh[v].act /\ T.veh[v].tgt = veh[v].tgt
+             Mark(T) == [T EXCEPT !.veh[v].arr = IF stays(T) THEN veh[v].arr + 1 ELSE 0] IN
+         IF R.ok THEN Commit(Mark(IF c.mv = "oos" THEN R.S ELSE ApplyNumeric(R.S, v, c)))
+         ELSE Commit(Mark(S0))
   /\ order' = Tail(order)
   /\ UNCHANGED <<seen, now, ph, todo, hist>>
 
@@ -217,6 +220,15 @@ Inv_C07 == C07_State(S0) = {}
 Inv_C10 == C10_State(S0) = {}
 Inv_C17 == C17_State(S0) = {}
 Inv_C03 == C03_OneCarrier(S0) = {}
+\* integer energy: bounds, the full / empty flags, and "an empty vehicle does not move" (checked as a step property)
+Inv_C04 == \A v \in Vehicles : /\ veh[v].en \in 0..MaxE
+                               /\ veh[v].full = (veh[v].en >= MaxE) /\ veh[v].empty = (veh[v].en <= 0)
+Step_C04 == \A v \in Vehicles : veh'[v].pos # veh[v].pos => (veh[v].en > 0 /\ ~veh'[v].empty /\ ph = "upd")
+Prop_C04 == [][Step_C04]_vars
+\* a vehicle whose route is exhausted leaves the travelling activity at its next update
+Inv_C06 == \A v \in Vehicles : veh[v].arr = 0
+\* only the tick changes the time, by exactly one step
+Prop_C15 == [][now' = now \/ (ph = "upd" /\ order = <<>> /\ now' = now + 1)]_vars
 
 \* at step boundaries only (the statements say "after every time step")
 AtBoundary == ph = "pre"
